@@ -627,7 +627,9 @@ def minimize_lbfgsb(
                         jac=grad,
                         nfev=sf.nfev,
                         njev=sf.ngev,
-                        nit=istate.nit,
+                        # the iteration being reported is complete: same count as a
+                        # run stopped here by maxiter would return
+                        nit=istate.nit + 1,
                         status=istate.warnflag,
                         message=istate.task_str,
                         # a copy: x is updated in place at the next iteration
